@@ -175,7 +175,7 @@ def precedence(e3):
             check.discharge_many(e3.res, specs, 120)
 
 
-def rolling_window(e3, nsamples, batch, nb):
+def rolling_window(e3, nsamples, batch, nb, ordered=True):
     """Distribution::new_summary(q, d, n); record_samples over `nsamples` samples with non-decreasing timestamps (one batch or singly);
     RollingSummary::snapshot(now). The DDSketch (`Summary`) is the multiset of sample indices it was given (its numerics are outside the
     claim), so the snapshot says exactly which samples the quantiles are computed from. Time is a mathematical integer (ns)."""
@@ -192,7 +192,9 @@ def rolling_window(e3, nsamples, batch, nb):
     ts = [z3.Int(f"ts{i}") for i in range(nsamples)]
     now = z3.Int("now")
     vals = [z3.BitVec(f"sample{i}", 64) for i in range(nsamples)]
-    base = [d > 0, d < (1 << 40), n >= 1, n <= 3, ts[0] >= 0] + [ts[i] <= ts[i + 1] for i in range(nsamples - 1)] + [now >= ts[-1], now < (1 << 50)] + [t < (1 << 50) for t in ts]
+    base = [d > 0, d < (1 << 40), n >= 1, n <= 3] + [t >= 0 for t in ts] + [now >= t for t in ts] + [now < (1 << 50)] + [t < (1 << 50) for t in ts]
+    if ordered:
+        base += [ts[i] <= ts[i + 1] for i in range(nsamples - 1)]
 
     def ld(eng, ctx, v):
         return MC.load(eng, ctx, v)
@@ -273,14 +275,15 @@ def rolling_window(e3, nsamples, batch, nb):
         # the never-reset total count is one of the integer fields of RollingSummary: it must equal the number of samples
         miscount.append(z3.And(l.taken(), z3.Not(z3.Or(*[c_ == nsamples for c_ in cnt])) if cnt else z3.BoolVal(True)))
     orr = lambda xs: z3.Or(*xs) if xs else z3.BoolVal(False)
-    cname = f"c15_window_{nsamples}{'batch' if batch else 'single'}_n{nb}"
-    bounds = (f"Distribution::new_summary(quantiles, d, n) with any bucket duration d and {nb} bucket(s); {nsamples} samples with any non-decreasing timestamps recorded {'as one batch' if batch else 'one call each'}; "
-              f"RollingSummary::snapshot(now) at any now >= the last timestamp; {len(done)} paths")
+    cname = f"c15_window_{nsamples}{'batch' if batch else 'single'}_n{nb}" + ("" if ordered else "_anyorder")
+    bounds = (f"Distribution::new_summary(quantiles, d, n) with any bucket duration d and {nb} bucket(s); {nsamples} samples with any {'non-decreasing ' if ordered else ''}timestamps "
+              f"{'' if ordered else '(in any order: a drain hands the newest storage block over first) '}recorded {'as one batch' if batch else 'one call each'}; "
+              f"RollingSummary::snapshot(now) at any now >= every timestamp; {len(done)} paths")
 
     def on_model(ob, model):
         import replay_e3
         ev = lambda t: model.eval(t, model_completion=True).as_long()
-        inputs = {"n": nb, "d": ev(d), "now": ev(now), "k": nsamples, "batch": int(batch)}
+        inputs = {"n": nb, "d": ev(d), "now": ev(now), "k": nsamples, "batch": int(batch), "direct": int(not ordered)}
         for i in range(nsamples):
             inputs[f"ts{i}"] = ev(ts[i])
         ob.sample = dict(inputs)
@@ -301,6 +304,10 @@ def rolling_window(e3, nsamples, batch, nb):
              dict(name=f"{cname}:quantiles_cover_samples_inside_the_window", desc="a sample recorded in timestamp order and well inside the window (timestamp > now - n*d + d) is ignored by the quantiles, or counted twice", bounds=bounds,
                   cons=base + [orr(missing + dup)], expect_unsat=True, on_model=on_model),
              dict(name=f"{cname}:count_covers_all_samples", desc="the total count kept by the summary is not the number of samples recorded", bounds=bounds, cons=base + [orr(miscount)], expect_unsat=True, on_model=on_model)]
+    if not ordered:
+        # which samples the quantiles cover is specified for samples arriving in time order only; the count and termination for every order
+        specs = [dict(name=f"{cname}:witness", desc="a history with a sample older than its predecessor exists", bounds=bounds,
+                      cons=base + [orr([l.taken() for l in done]), z3.Or(*[ts[i] > ts[i + 1] + n * d for i in range(nsamples - 1)])], expect_unsat=False), specs[1], specs[4]]
     check.discharge_many(e3.res, specs, 300)
 
 
@@ -312,11 +319,16 @@ def run(tier, seed, t0):
         precedence(e3)
     except _e3.ENC_ERRORS as ex:
         e3.error("c15_precedence", "MIR->SMT encoding of DistributionBuilder", ex)
-    for k, batch, nb in ([(2, True, 3), (2, False, 2), (3, True, 2), (2, True, 1)] if tier == "quick" else [(2, True, 3), (2, False, 2), (3, True, 2), (2, True, 1), (3, False, 3), (4, True, 3), (3, True, 1)]):
+    shapes = [(2, True, 3, True), (2, False, 2, True), (3, True, 2, True), (2, True, 1, True), (3, True, 2, False), (2, False, 1, False)]
+    if tier != "quick":
+        shapes += [(3, False, 3, True), (4, True, 3, True), (3, True, 1, True), (4, True, 3, False), (3, False, 2, False)]
+    for k, batch, nb, ordered in shapes:
+        if os.environ.get("VERIF_C15_ONLY") == "window_anyorder" and ordered:
+            continue
         try:
-            rolling_window(e3, k, batch, nb)
+            rolling_window(e3, k, batch, nb, ordered)
         except _e3.ENC_ERRORS as ex:
-            e3.error(f"c15_window_{k}{'batch' if batch else 'single'}_n{nb}", "MIR->SMT encoding of Distribution::record_samples / RollingSummary", ex)
+            e3.error(f"c15_window_{k}{'batch' if batch else 'single'}_n{nb}{'' if ordered else '_anyorder'}", "MIR->SMT encoding of Distribution::record_samples / RollingSummary", ex)
     try:
         import prom_int
         prom_int.scen_ageing(e3, "C15", "c15")
